@@ -422,17 +422,65 @@ def rule_graph_neighbours(ctx, py):
     R = "C01.NEIGH"
     g = py.fn("rdgraphspace.RDGraphSpace.get_edge")
     pi, pj = [p for p in pyfe.params(g) if p != "self"][:2]
+    from .. import pysym
     rets = [(r, pyfe.parent(r)) for r in ast.walk(g) if isinstance(r, ast.Return) and r.value is not None and
             not (isinstance(r.value, ast.Constant) and r.value.value is None)]
-    ctx.need(len(rets) == 1 and isinstance(rets[0][1], ast.If), R, "get_edge: a single guarded `return edge` not found")
-    test = rets[0][1].test
-    ev = pyfe.src(rets[0][0].value)
+    test = ev = None
+    if len(rets) == 1 and isinstance(rets[0][1], ast.If):
+        test, ev = rets[0][1].test, pyfe.src(rets[0][0].value)
+    elif len(rets) == 1:
+        v_ = pysym.inline(rets[0][0].value, g)
+        # first match of a filtered generator: next((e for e in self.edges if COND), None)
+        if isinstance(v_, ast.Call) and pyfe.call_name(v_) == "next" and v_.args and \
+                isinstance(v_.args[0], (ast.GeneratorExp, ast.ListComp)) and len(v_.args[0].generators) == 1 and \
+                len(v_.args[0].generators[0].ifs) == 1 and pyfe.src(v_.args[0].elt) == pyfe.src(v_.args[0].generators[0].target):
+            test, ev = v_.args[0].generators[0].ifs[0], pyfe.src(v_.args[0].elt)
+        # table lookup: the key the edge is stored under must be the key it is looked up with
+        look = v_
+        if isinstance(look, ast.Call) and isinstance(look.func, ast.Attribute) and look.func.attr == "get" and look.args:
+            tab, key = pyfe.src(look.func.value), look.args[0]
+        elif isinstance(look, ast.Subscript):
+            tab, key = pyfe.src(look.value), look.slice
+        else:
+            tab = key = None
+        if test is None and tab is not None and tab.startswith("self."):
+            kq = pyfe.src(key).replace(" ", "")
+            import re as _re
+            kq = _re.sub(r"\b%s\b" % pi, "A", kq)
+            kq = _re.sub(r"\b%s\b" % pj, "B", kq)
+            stored = []
+            for m_ in [x for x in ast.walk(g._cls) if isinstance(x, ast.FunctionDef)] if getattr(g, "_cls", None) is not None else []:
+                for c_ in pyfe.calls_in(m_):
+                    if isinstance(c_.func, ast.Attribute) and c_.func.attr == "setdefault" and pyfe.src(c_.func.value) == tab and c_.args:
+                        stored.append((c_, c_.args[0]))
+                for st_ in ast.walk(m_):
+                    if isinstance(st_, ast.Assign) and isinstance(st_.targets[0], ast.Subscript) and \
+                            pyfe.src(st_.targets[0].value) == tab:
+                        stored.append((st_, st_.targets[0].slice))
+            ctx.need(stored, R, "get_edge: the table %s it looks edges up in is filled nowhere in the class" % tab)
+            keys = set()
+            for node_, k_ in stored:
+                t_ = pyfe.src(k_).replace(" ", "")
+                t_ = _re.sub(r"\b\w+\.i\b", "A", t_)
+                t_ = _re.sub(r"\b\w+\.j\b", "B", t_)
+                keys.add(t_)
+            swapped = kq.replace("A", "#").replace("B", "A").replace("#", "B")
+            sym = kq == swapped or ("min(A,B)" in kq and "max(A,B)" in kq) or "frozenset" in kq
+            okk = (kq in keys and sym) or (kq in keys and swapped in keys)
+            ctx.check(okk, R, rets[0][0], g._qual, "edges looked up under %s, stored under %s" % (kq, sorted(keys)),
+                      "the same orientation-free key on both sides", "get_edge looks an edge up under `%s` but the table is filled "
+                      "under %s: an edge listed as (j, i) with j > i is not found from either end, the graph loses the adjacency "
+                      "(periodic wrap edges of a converted grid, user edges listed high-to-low)" % (kq, sorted(keys)))
+            test = False
+    ctx.need(test is not None, R, "get_edge: neither a guarded `return edge`, a filtered first match nor a table lookup found")
+    ev = ev or "edge"
     fwd = {(ev + ".i", pi): True, (ev + ".j", pj): True, (ev + ".i", pj): False, (ev + ".j", pi): False}
     bwd = {(ev + ".i", pi): False, (ev + ".j", pj): False, (ev + ".i", pj): True, (ev + ".j", pi): True}
     none = {(ev + ".i", pi): True, (ev + ".j", pj): False, (ev + ".i", pj): False, (ev + ".j", pi): False}
-    ctx.check(_bool_eval(test, fwd) is True and _bool_eval(test, bwd) is True and _bool_eval(test, none) is False, R, rets[0][1],
-              g._qual, "if " + pyfe.src(test)[:90], "matches the edge in both orientations and nothing else",
-              "get_edge does not match an edge exactly when its end points are {i, j} in either order")
+    if test is not False:
+        ctx.check(_bool_eval(test, fwd) is True and _bool_eval(test, bwd) is True and _bool_eval(test, none) is False, R, rets[0][0],
+                  g._qual, "if " + pyfe.src(test)[:90], "matches the edge in both orientations and nothing else",
+                  "get_edge does not match an edge exactly when its end points are {i, j} in either order")
     f = py.fn("kinetics._compute_dspeciesdt_graph")
     # the loop that adds the diffusion terms: for j in <L>: ... compute_diffusion_rates(system, species, position, j, ...)
     loops = [n for n in ast.walk(f) if isinstance(n, ast.For) and any(
